@@ -86,24 +86,24 @@ macro_rules! filter_harness { ($h:ident, $p:literal) => {
     fn $h() { check_filter($p); }
 } }
 
-//@ id=topicfilter.bounded.plain props=C16,C17 kind=bounded(prefix""+<=3chars/8-symbol-alphabet) tier=quick
+//@ id=topicfilter.bounded.plain props=C16,C17 kind=bounded(prefix""+<=3chars/8-symbol-alphabet) tier=quick xcheck=1
 filter_harness!(k_filter_plain, "");
-//@ id=topicfilter.bounded.share props=C16,C17 kind=bounded(prefix"$share/"+<=3chars) tier=quick
+//@ id=topicfilter.bounded.share props=C16,C17 kind=bounded(prefix"$share/"+<=3chars) tier=quick xcheck=1
 filter_harness!(k_filter_share, "$share/");
-//@ id=topicfilter.bounded.share-g props=C16,C17 kind=bounded(prefix"$share/g"+<=3chars) tier=quick
+//@ id=topicfilter.bounded.share-g props=C16,C17 kind=bounded(prefix"$share/g"+<=3chars) tier=quick xcheck=1
 filter_harness!(k_filter_share_g, "$share/g");
-//@ id=topicfilter.bounded.share-g-slash props=C16,C17 kind=bounded(prefix"$share/é/"+<=3chars) tier=quick
+//@ id=topicfilter.bounded.share-g-slash props=C16,C17 kind=bounded(prefix"$share/é/"+<=3chars) tier=quick xcheck=1
 filter_harness!(k_filter_share_g_slash, "$share/é/");
-//@ id=topicfilter.bounded.share6 props=C16,C17 kind=bounded(prefix"$share"+<=3chars) tier=quick
+//@ id=topicfilter.bounded.share6 props=C16,C17 kind=bounded(prefix"$share"+<=3chars) tier=quick xcheck=1
 filter_harness!(k_filter_share6, "$share");
-//@ id=topicfilter.bounded.shar props=C16,C17 kind=bounded(prefix"$shar"+<=3chars) tier=quick
+//@ id=topicfilter.bounded.shar props=C16,C17 kind=bounded(prefix"$shar"+<=3chars) tier=quick xcheck=1
 filter_harness!(k_filter_shar, "$shar");
-//@ id=topicfilter.bounded.sharX props=C16,C17 kind=bounded(prefix"$sharE/g/"+<=3chars) tier=quick
+//@ id=topicfilter.bounded.sharX props=C16,C17 kind=bounded(prefix"$sharE/g/"+<=3chars) tier=quick xcheck=1
 filter_harness!(k_filter_share_upper, "$sharE/g/");
-//@ id=topicfilter.bounded.level props=C16,C17 kind=bounded(prefix"a/"+<=3chars) tier=quick
+//@ id=topicfilter.bounded.level props=C16,C17 kind=bounded(prefix"a/"+<=3chars) tier=quick xcheck=1
 filter_harness!(k_filter_level, "a/");
 
-//@ id=topicname.bounded props=C18 kind=bounded(<=3chars/8-symbol-alphabet) tier=quick
+//@ id=topicname.bounded props=C18 kind=bounded(<=3chars/8-symbol-alphabet) tier=quick xcheck=1
 #[kani::proof]
 #[kani::unwind(26)]
 fn k_topic_name() {
@@ -141,11 +141,11 @@ fn check_name_prefix(prefix: &str, is_share: bool) {
     else { assert!(name.is_sys() == has, "C18:TopicName.is_sys:equals-prefix-test"); }
     assert!(&*name == s, "C18:TopicName.deref:returns-the-original-text");
 }
-//@ id=topicname.prefix.share props=C18 kind=bounded("$share/"|"$share"+<=1char) tier=quick
+//@ id=topicname.prefix.share props=C18 kind=bounded("$share/"|"$share"+<=1char) tier=quick xcheck=1
 #[kani::proof]
 #[kani::unwind(12)]
 fn k_name_prefix_share() { let full: bool = kani::any(); check_name_prefix(if full { "$share/" } else { "$share" }, true); }
-//@ id=topicname.prefix.sys props=C18 kind=bounded("$SYS/"|"$SYS"+<=1char) tier=quick
+//@ id=topicname.prefix.sys props=C18 kind=bounded("$SYS/"|"$SYS"+<=1char) tier=quick xcheck=1
 #[kani::proof]
 #[kani::unwind(12)]
 fn k_name_prefix_sys() { let full: bool = kani::any(); check_name_prefix(if full { "$SYS/" } else { "$SYS" }, false); }
